@@ -87,6 +87,10 @@ pub fn kind_case(case: &J) -> J {
         let mut merged = k.clone();
         merged.merge(k2.clone(), vrl::value::kind::merge::Strategy { collisions: vrl::value::kind::merge::CollisionStrategy::Overwrite });
         let sup = k.is_superset(&k2).is_ok();
+        // consequences of "union contains its operands" + "the subtype test agrees with membership"
+        let sup_refl = k.is_superset(&k).is_ok();
+        let sup_union_l = union.is_superset(&k).is_ok();
+        let sup_union_r = union.is_superset(&k2).is_ok();
 
         let vget = opt(v.get(&p));
         let mut vi = v.clone();
@@ -112,6 +116,7 @@ pub fn kind_case(case: &J) -> J {
                "ins": enc::kind_to_json(&kins),
                "rem": {"kind": enc::kind_to_json(&krem), "removed": enc::kind_to_json(&removed_kind)},
                "union": enc::kind_to_json(&union), "merge": enc::kind_to_json(&merged), "sup": sup,
+               "sup_refl": sup_refl, "sup_union_l": sup_union_l, "sup_union_r": sup_union_r,
                "vget": vget, "vins": enc::val_to_json(&vi),
                "vrem": {"val": enc::val_to_json(&vr), "removed": opt(vremoved.as_ref())},
                "vmerge": vmerge})
